@@ -126,10 +126,10 @@ def ht_closer_units(order, kind, f, tier):
             "C17.closer.inv-A-preserved-at-an-arbitrary-bit", "C17.closer.inv-B-preserved-at-an-arbitrary-slot", "C17.closer.inv-C-preserved-at-an-arbitrary-pair",
             "C17.closer.every-entry-keeps-its-key-and-value", "C17.closer.no-entry-appears"]
     for i, tag in enumerate(tags):
-        unit("ht.closer.%s.o%d.f%d.%d" % (kind, order, f, i + 1), ["C17"], "units/ht.c", entry="h_ht_closer", tier=tier, solver="cadical", unwind=129, kind="proof",
+        unit("ht.closer.%s.o%d.f%d.%d" % (kind, order, f, i + 1), ["C17"], "units/ht.c", entry="h_ht_closer", tier=tier, solver="cadical", unwind=64, kind="proof",
              defines=["HT_ORDER=%d" % order, "HT_KIND=%d" % HT_KINDS[kind], "HT_F=%d" % f, "HT_ONLY=%d" % (i + 1)], shared_tags=True,
              bound="table order %d, free position %d (rotation symmetry: one position stands for all - assumption)" % (order, f),
-             functions=["find_closer_entry_<name> (order %d, %s keys)" % (order, kind)], expect_tags=[tag], timeout=2400, mem_gb=16, mem_budget_gb=12,
+             functions=["find_closer_entry_<name> (order %d, %s keys)" % (order, kind)], expect_tags=[tag], timeout=2400, mem_gb=20, mem_budget_gb=13,
              assumes=["window-based invariant with ghost indices (universal generalisation)", "uninterpreted hash", "rotation symmetry of the table for the choice of the free position"])
 
 
